@@ -6,21 +6,23 @@ def jobs(ctx):
     q = ctx.tier == "quick"
     js = [("sort_ops", ["rand", 250 if q else 4000, k, 9000 if q else 40000]) for k in range(core.NCPU // 2)]
     js.append(("sort_ops", ["big", 8 if q else 60, 99]))
+    js += [("sort_ops", ["comp", 2100 if q else 21000, 50 + k, 3000]) for k in range(4)]
+    js += [("sort_ops", ["adv", 150 if q else 1500, 70 + k, 3000 if q else 12000]) for k in range(4)]
     return js
 
 
 def nontrivial(l):
-    if not l.startswith("Q "):
+    if not (l.startswith("Q ") or l.startswith("QC ")):
         return None
     f = dict(w.split("=", 1) for w in l.split()[1:11] if "=" in w)
     if int(f.get("n", "0")) < 2:
         return None
-    return (f["shift"], f["cancel"], f["n"], f["shape"], hash(l))
+    return (f.get("which", "sort"), f["shift"], f.get("cancel"), f["n"], f["shape"], hash(l))
 
 
 def describe(l):
     f = dict(w.split("=", 1) for w in l.split()[1:] if "=" in w)
-    d = {k: f.get(k) for k in ("shift", "threads", "cancel", "n", "shape", "ret", "loads", "same")}
+    d = {k: f.get(k) for k in ("which", "arg", "shift", "threads", "cancel", "n", "shape", "ret", "loads", "same", "r", "b") if k in f}
     d["data_head"] = f.get("data", "")[:200]
     d["out_head"] = f.get("out", "")[:200]
     return d
@@ -34,15 +36,17 @@ def run(ctx):
     return core.simple_check(
         ctx, jobs,
         rule="arrays of u32 keys through the cfg-gated facade of par_quicksort: lengths 0..9000 (thorough 40000) plus 20k/50k/100k/300k, ten arrangements (random, "
-             "sorted, reversed, organ pipe, few keys, all equal, sawtooth, mostly sorted, median-of-three killer, ascending runs), comparators (a>>s)<(b>>s) with "
+             "sorted, reversed, organ pipe, few keys, all equal, sawtooth, mostly sorted, median-of-three killer, ascending runs) plus McIlroy's killer adversary run "
+             "against the real sort (its frozen keys drive the sort into break_patterns and the heapsort fallback; lengths 30..3000, thorough 12000), comparators (a>>s)<(b>>s) with "
              "s in {0,3,7} (ties), pools of 1/2/8/16 threads (all must produce the identical slice), cancel flag raised at the k-th flag load through the yield "
-             "point (k = 0 or 1..6, single thread) or never; model = implementation on the final slice and the returned flag; distinct non-trivial = distinct "
-             "inputs of length >= 2",
+             "point (k = 0 or 1..6, single thread) or never; model = implementation on the final slice and the returned flag; each private building block (insertion_sort, partial_insertion_sort, heapsort, partition, partition_equal, break_patterns, choose_pivot) "
+             "called directly through the cfg-gated facade on the same arrangements, model = implementation on slice and return value, and the block's own contract "
+             "(sorted / split point separates the slice) evaluated on the implementation's output; distinct non-trivial = distinct inputs of length >= 2",
         nontrivial=nontrivial, describe=describe, shrinker=shrink_line,
         correspondence="Model/ParSort.lean (swap-only model of pdqsort) ~ src/par_sort.rs",
         assumptions=["rayon::join on disjoint sub-slices is modelled as sequential composition; the sub-slices are disjoint by Rust's borrow rules (split_at_mut)",
                      "hole-based moves and the cyclic permutation of partition_in_blocks are modelled by the equivalent swap chains (validated by the exact-output correspondence)"],
-        sample_filter=lambda l: l.startswith("Q ") and len(l) < 600)
+        sample_filter=lambda l: (l.startswith("Q ") or l.startswith("QC ")) and len(l) < 600)
 
 
 def replay(ctx, path):
